@@ -1,20 +1,39 @@
 """
 Value-semantics guard.  Every model (traced or hand-written) treats the numeric functions of xfab as pure: the
-result depends on the argument values only and the arguments are left untouched.  The implementation could break
-that silently (in-place arithmetic on a caller's array, a returned alias of internal state).  While a check runs,
-the public functions of the numeric modules are wrapped: ndarray / list arguments are snapshotted before the call
-and compared bit-for-bit afterwards.  A difference is recorded as an event; check.py reports events as
-violations (the concrete call is the failing input).
+result depends on the argument VALUES only, the arguments are left untouched, and nothing is remembered between
+calls.  The implementation could break that silently (in-place arithmetic on a caller's array, a memo keyed on a
+tolerance, a cache holding a reference to the caller's list).  No theorem about a functional model can see such a
+change, and a Float twin only sees it if the stream happens to contain the triggering HISTORY.  While a check runs,
+the public functions of the numeric modules are therefore wrapped (harness-side monkeypatching, no source hook):
 
-Only harness-side monkeypatching, no source hook.  Functions keep `__wrapped__`, `__module__`, `__name__`.
+* mutation guard: ndarray / list arguments are snapshotted before the call and compared bit-for-bit afterwards;
+* history probe (first PROBE_FIRST top-level calls of each function, then every PROBE_EVERY-th): on deep copies of
+  the arguments `a`, with `p` = arguments of an earlier, different call of the same function:
+      near   f(a); r1 = f(a*(1+-1e-7)); f(p); r2 = f(a*(1+-1e-7))        -- memo keyed on "close enough"
+      alias  f(b) with b = copy(a); b *= (1+-1e-3) in place; r1 = f(b); f(p); r2 = f(copy(b))   -- cache holding a reference
+      repeat r1 = f(a) directly after f(a); f(p); r2 = f(a)                -- any other dependence on the previous call
+  r1 and r2 are results of the SAME argument values after different histories; they must be bit-identical.
+
+An event is reported by check.py as a violation whose replay is the concrete call history.
 """
-import functools, inspect
+import copy, functools, inspect
 import numpy as np
 
 EVENTS = []
+HISTORY_EVENTS = []
 _installed = []
 MODULES = ('xfab.tools', 'xfab.laue', 'xfab.detector', 'xfab.symmetry', 'xfab.structure')
 SKIP = {'trans_orientation', 'image_flipping'}     # return views by design; never write to their argument
+# history probe: only functions whose contract is a deterministic value (the reflection generators draw random
+# projection weights; readers / classes / plotting are not value functions)
+NO_PROBE = {'genhkl', 'genhkl_all', 'genhkl_base', 'genhkl_unique', 'reduce_cell', 'StructureFactor', 'multiplicity',
+            'int_intensity', 'interpolate_background', 'trans_orientation', 'image_flipping'}
+PROBE_FIRST = 6
+PROBE_EVERY = 53
+_depth = [0]
+_count = {}
+_prev = {}
+STATS = {'probes': 0, 'calls': 0}
 
 
 def _snap(a):
@@ -31,17 +50,169 @@ def _same(s, a):
     return len(a) == len(s[1]) and all((x == y) or (x != x and y != y) for x, y in zip(a, s[1]))
 
 
+# ------------------------------------------------------------------------------------------------
+# history probe helpers
+
+def _numeric(a):
+    """True when `a` is a float-valued argument the probe may perturb"""
+    if isinstance(a, bool):
+        return False
+    if isinstance(a, (float, np.floating)):
+        return np.isfinite(a)
+    if isinstance(a, np.ndarray):
+        return a.dtype.kind == 'f' and a.size <= 64 and np.all(np.isfinite(a))
+    if isinstance(a, (list, tuple)):
+        return 0 < len(a) <= 16 and all(_numeric(x) or isinstance(x, (int, np.integer)) and not isinstance(x, bool) for x in a) \
+            and any(_numeric(x) for x in a)
+    return False
+
+
+def _scaled(a, s):
+    """copy of `a` with every float component multiplied by s (ints untouched)"""
+    if isinstance(a, (float, np.floating)):
+        return type(a)(a * s)
+    if isinstance(a, np.ndarray):
+        return a * s
+    if isinstance(a, list):
+        return [_scaled(x, s) if not isinstance(x, (int, np.integer)) else x for x in a]
+    if isinstance(a, tuple):
+        return tuple(_scaled(x, s) if not isinstance(x, (int, np.integer)) else x for x in a)
+    return a
+
+
+def _scale_inplace(a, s):
+    if isinstance(a, np.ndarray):
+        a *= s
+        return True
+    if isinstance(a, list):
+        ok = False
+        for i, x in enumerate(a):
+            if isinstance(x, (float, np.floating)):
+                a[i] = x * s
+                ok = True
+            elif isinstance(x, (list, np.ndarray)):
+                ok = _scale_inplace(x, s) or ok
+        return ok
+    return False
+
+
+def _plain(x):
+    if isinstance(x, np.ndarray):
+        return x.tolist()
+    if isinstance(x, np.generic):
+        return x.item()
+    if isinstance(x, (list, tuple)):
+        return [_plain(y) for y in x]
+    if isinstance(x, (int, float, str, bool)) or x is None:
+        return x
+    return repr(x)
+
+
+def _bits(r):
+    """canonical bytes of a result (nested lists/tuples/arrays/scalars); None when not a numeric value"""
+    if r is None:
+        return b'N'
+    if isinstance(r, (list, tuple)):
+        parts = [_bits(x) for x in r]
+        return None if any(p is None for p in parts) else b'[' + b','.join(parts) + b']'
+    try:
+        a = np.asarray(r)
+    except Exception:
+        return None
+    if a.dtype.kind not in 'fiubc':
+        return None
+    return str(a.shape).encode() + np.ascontiguousarray(a, dtype=complex if a.dtype.kind == 'c' else float).tobytes()
+
+
+def _call(f, args, kw):
+    try:
+        return ('ok', f(*args, **kw))
+    except Exception as e:          # the probe only compares; what is raised is the business of the property's oracle
+        return ('raise', type(e).__name__)
+
+
+def _outcome_bits(o):
+    return o[1].encode() if o[0] == 'raise' else _bits(o[1])
+
+
+def _probe(modname, name, f, args, kw):
+    key = (modname, name)
+    prev = _prev.get(key)
+    idx = [i for i, a in enumerate(args) if _numeric(a)]
+    if not idx:
+        return
+    cur = copy.deepcopy(args)
+    if prev is None or _bits([a for a in prev if _numeric(a)]) == _bits([a for a in cur if _numeric(a)]):
+        _prev.setdefault(key, cur)
+        return
+    STATS['probes'] += 1
+    scen = []
+    near = tuple(_scaled(a, 1 + 1e-7) if i in idx else copy.deepcopy(a) for i, a in enumerate(cur))
+    scen.append(('near', [copy.deepcopy(cur)], near, near))
+    if any(isinstance(cur[i], (list, np.ndarray)) for i in idx):
+        scen.append(('alias', None, None, None))
+    scen.append(('repeat', [copy.deepcopy(cur)], cur, cur))
+    for kind, first, a1, a2 in scen:
+        if kind == 'alias':
+            b0 = copy.deepcopy(cur)
+            _call(f, b0, kw)                                   # may leave a reference to b0's containers behind
+            for i in idx:
+                if isinstance(b0[i], (list, np.ndarray)):
+                    _scale_inplace(b0[i], 1 + 1e-3)            # the caller re-uses its array for the next cell/matrix
+            r1 = _call(f, b0, kw)
+            hist1 = [_plain(cur), 'in-place *=1.001 of the same containers', _plain(b0)]
+            _call(f, copy.deepcopy(prev), kw)
+            fresh = copy.deepcopy(b0)
+            r2 = _call(f, fresh, kw)
+            a_rep = b0
+        else:
+            for a in first:
+                _call(f, a, kw)
+            r1 = _call(f, copy.deepcopy(a1), kw)
+            hist1 = [_plain(x) for x in first] + [_plain(a1)]
+            _call(f, copy.deepcopy(prev), kw)
+            r2 = _call(f, copy.deepcopy(a2), kw)
+            a_rep = a1
+        b1, b2 = _outcome_bits(r1), _outcome_bits(r2)
+        if b1 is None or b2 is None:
+            return
+        if b1 != b2 and len(HISTORY_EVENTS) < 20:
+            HISTORY_EVENTS.append({'fn': '%s.%s' % (modname.split('.')[-1], name), 'scenario': kind,
+                                   'args': _plain(a_rep), 'first_call_args': _plain(cur), 'other_call_args': _plain(prev),
+                                   'history_a': hist1, 'result_after_history_a': _plain(r1[1]),
+                                   'result_after_history_b': _plain(r2[1])})
+            return
+    _prev[key] = cur
+
+
 def _wrap(modname, name, f):
+    probe_ok = name not in NO_PROBE and not name.startswith('_')
+
     @functools.wraps(f)
     def g(*args, **kw):
         snaps = [(_snap(a), a) for a in args]
+        top = _depth[0] == 0
+        _depth[0] += 1
         try:
             return f(*args, **kw)
         finally:
+            _depth[0] -= 1
             for i, (s, a) in enumerate(snaps):
                 if s is not None and not _same(s, a) and len(EVENTS) < 50:
                     EVENTS.append({'fn': '%s.%s' % (modname.split('.')[-1], name), 'arg_index': i,
-                                   'before': np.asarray(s[1], float).tolist(), 'after': np.asarray(a, float).tolist()})
+                                   'before': np.asarray(s[1], float).tolist(), 'after': np.asarray(a, float).tolist(),
+                                   'all_args': [[t[0][0], _plain(t[0][1])] if t[0] is not None else ['other', _plain(t[1])] for t in snaps]})
+            if top and probe_ok and not kw:
+                STATS['calls'] += 1
+                c = _count[(modname, name)] = _count.get((modname, name), 0) + 1
+                if c <= PROBE_FIRST + 1 or c % PROBE_EVERY == 0:
+                    _depth[0] += 1
+                    try:
+                        _probe(modname, name, f, args, kw)
+                    except Exception:
+                        pass
+                    finally:
+                        _depth[0] -= 1
     g.__purity_guard__ = True
     return g
 
@@ -72,6 +243,60 @@ def violations():
         if k in seen:
             continue
         seen.add(k)
-        out.append({'fn': e['fn'], 'what': 'argument %d modified in place (the models assume value semantics; a caller re-using the array gets wrong results)' % e['arg_index'],
-                    'input': e['before'], 'observed': e['after'], 'expected': 'argument unchanged', 'known_id': None})
+        out.append({'fn': e['fn'], 'purity': 'mutation', 'arg_index': e['arg_index'],
+                    'what': 'argument %d modified in place (the models assume value semantics; a caller re-using the array gets wrong results)' % e['arg_index'],
+                    'input': e['before'], 'all_args': e.get('all_args'), 'observed': e['after'], 'expected': 'argument unchanged', 'known_id': None})
+    for e in HISTORY_EVENTS:
+        k = (e['fn'], 'history')
+        if k in seen:
+            continue
+        seen.add(k)
+        out.append(dict(e, purity='history', known_id=None,
+                        what='result depends on the call history, not only on the argument values (scenario "%s": the same '
+                             'arguments give different results after different preceding calls)' % e['scenario'],
+                        observed=e['result_after_history_a'], expected=e['result_after_history_b']))
     return out
+
+
+def replay(v):
+    """re-run a stored purity violation against the implementation; 1 = still violated"""
+    import importlib
+    modname, name = v['fn'].split('.')
+    m = importlib.import_module('xfab.' + modname)
+    f = getattr(m, name)
+    f = getattr(f, '__wrapped__', f)
+
+    def conv(x):
+        return np.array(x, float) if isinstance(x, list) and x and isinstance(x[0], list) else x
+    if v.get('purity') == 'mutation':
+        if v.get('all_args'):
+            args = [np.array(x, float) if t == 'nd' else x for t, x in v['all_args']]
+            k = v['arg_index']
+        else:
+            args, k = [np.array(v['input'], float)], 0
+        before = copy.deepcopy(args[k])
+        _call(f, args, {})
+        bad = _bits(args[k]) != _bits(before)
+        print('replay %s: argument %s' % (v['fn'], 'MODIFIED in place -> VIOLATION' if bad else 'unchanged'))
+        return 1 if bad else 0
+    cur = [conv(x) for x in v['first_call_args']]
+    prev = [conv(x) for x in v['other_call_args']]
+    args = [conv(x) for x in v['args']]
+    if v['scenario'] == 'alias':
+        b0 = copy.deepcopy(cur)
+        _call(f, b0, {})
+        for x in b0:
+            if isinstance(x, (list, np.ndarray)):
+                _scale_inplace(x, 1 + 1e-3)
+        r1 = _call(f, b0, {})
+        _call(f, copy.deepcopy(prev), {})
+        r2 = _call(f, copy.deepcopy(b0), {})
+    else:
+        _call(f, copy.deepcopy(cur), {})
+        r1 = _call(f, copy.deepcopy(args), {})
+        _call(f, copy.deepcopy(prev), {})
+        r2 = _call(f, copy.deepcopy(args), {})
+    bad = _outcome_bits(r1) != _outcome_bits(r2)
+    print('replay %s (%s): after history A %s | after history B %s -> %s' % (
+        v['fn'], v['scenario'], _plain(r1[1]), _plain(r2[1]), 'VIOLATION' if bad else 'holds'))
+    return 1 if bad else 0
